@@ -12,6 +12,10 @@ VARIABLE vEvents     \* history: the builder calls of each delivered token
 Init == vEvents = <<>> /\ \E s \in UNION { [1..n -> Alphabet] : n \in 0..MaxLines } : L0Init(Prefix \o s \o <<"#EOF">>)
 Next == L0Next /\ vEvents' = IF Len(vDelivered') > Len(vDelivered) THEN Append(vEvents, Table[vSt][vTry].prods) ELSE vEvents
 Spec == Init /\ [][Next]_<<lvars, vEvents>>
+\* "nothing hangs": under weak fairness of the parser's own steps every parse ends (checked WITHOUT a state constraint, which could hide a
+\* non-progress cycle; the instance is finite because the input is)
+FairSpec == Spec /\ WF_<<lvars, vEvents>>(Next)
+Termination == <>(vPc = "done")
 Emit == vPc = "done" => PrintT(<<"L0", ToJson([input |-> vInput, delivered |-> vDelivered, reported |-> vReported, events |-> vEvents, nerr |-> vErrs])>>)
 Bound == vErrs <= MaxErrs
 Constraint == Emit /\ Bound
